@@ -2019,9 +2019,22 @@ class IMAPClientCommand:
         if mbox_name is None:
             mbox_name = self._p_astring()
         if mbox_name != "":
-            return os.path.normpath(mbox_name)
-        else:
-            return mbox_name
+            mbox_name = os.path.normpath(mbox_name)
+
+            # Mailbox names are paths relative to the user's mail directory.
+            # Refuse the ones that would lead out of it: a name that (after
+            # normalization) climbs up with `..`, or that is an absolute path
+            # once the single leading `/` we allow as a prefix is removed.
+            #
+            if (
+                mbox_name == ".."
+                or mbox_name.startswith("../")
+                or mbox_name.startswith("//")
+            ):
+                raise BadSyntax(
+                    value=f"'{mbox_name}' is not a valid mailbox name"
+                )
+        return mbox_name
 
     #######################################################################
     #
